@@ -9,6 +9,8 @@
 //   * `required_ambiguity_resolution` returns an ARBITRARY answer (None for pawns and kings: C18.disambiguation.minimal)
 //     and checks it is asked about the caller's position and this move.
 // The String machinery (format!, to_string, Square::notation) is the real library code, executed symbolically.
+// MEASURED: does not fit CBMC (12 GB exceeded after 25 min of symbolic execution, all four classes) => experimental;
+// the protocol half is C18.suffix.decided_for_every_move (c18txt).
 use crate::chess::board::verif_kani_sym as sym;
 use crate::chess::board::Board;
 use crate::chess::game::verif_kani_c02 as c02;
@@ -176,6 +178,7 @@ fn check_format(class: u8) {
 }
 
 //@ obligation: C18.format.quiet_and_capture
+//@ status: experimental
 //@ domain: complete
 //@ functions: chess/san/san_writer.rs::format_move
 //@ timeout: 3000
@@ -191,6 +194,7 @@ fn vk_c18_format_quiet_and_capture() {
 }
 
 //@ obligation: C18.format.en_passant
+//@ status: experimental
 //@ domain: complete
 //@ functions: chess/san/san_writer.rs::format_move
 //@ timeout: 3000
@@ -205,6 +209,7 @@ fn vk_c18_format_en_passant() {
 }
 
 //@ obligation: C18.format.promotions
+//@ status: experimental
 //@ domain: complete
 //@ functions: chess/san/san_writer.rs::format_move
 //@ timeout: 3000
@@ -220,6 +225,7 @@ fn vk_c18_format_promotions() {
 }
 
 //@ obligation: C18.format.castling
+//@ status: experimental
 //@ domain: complete
 //@ functions: chess/san/san_writer.rs::format_move
 //@ timeout: 3000
@@ -235,6 +241,7 @@ fn vk_c18_format_castling() {
 }
 
 //@ obligation: C18.canary.format
+//@ status: experimental
 //@ canary: true
 //@ timeout: 3000
 //@ mem_gb: 12
